@@ -122,7 +122,7 @@ FieldFits(fk, t) ==
       [] fk = "list_int" -> t.kind = "list" /\ t.items.kind = "int"
       [] fk = "list_string" -> t.kind = "list" /\ t.items.kind = "string"
       [] fk = "map_string_int" -> t.kind = "map" /\ t.keys.kind = "string" /\ t.values.kind = "int"
-      [] fk = "any" -> t.kind \in {"any", "oneof"} \/ (t.kind = "object" /\ t.layout = "map")
+      [] fk = "any" -> t.kind \in {"any", "oneof", "ref"} \/ (t.kind = "object" /\ t.layout = "map")
       [] fk = "sub" -> t.kind = "ref" \/ (t.kind = "object" /\ t.layout = "sub")
       [] fk = "subp" -> t.kind = "ref" \/ (t.kind = "object" /\ t.layout \in {"sub", "sub_p"})
 
